@@ -38,7 +38,19 @@ fn s_maps(t: &mut Tape, ctx: &mut Ctx) -> Result<(), Failure> {
         let mut what: Vec<&'static str> = vec![];
         let n_ops = if k == 0 { 0 } else { 1 + t.index(2) };
         for _ in 0..n_ops {
-            match t.weighted(&[2, 2, 3, 2, 3, 3]) {
+            match t.weighted(&[2, 2, 3, 2, 3, 3, 2]) {
+                6 => {
+                    // the same value at a type that differs only where the value shows nothing
+                    // (payload of None, absent side of an Either, element type of an empty list)
+                    if !supplied.is_empty() {
+                        let i = t.index(supplied.len());
+                        let (n, v, ty) = supplied[i].clone();
+                        if let Some(other) = valgen::evidence_free_retype(t, &v, &ty) {
+                            supplied[i] = (n, v, other);
+                            what.push("same-value-other-type");
+                        }
+                    }
+                }
                 0 => {
                     if !supplied.is_empty() {
                         let i = t.index(supplied.len());
@@ -161,7 +173,7 @@ pub fn streams() -> Vec<Stream> {
 pub fn def() -> PropertyDef {
     PropertyDef {
         id: "C05",
-        rule: "generated self-checking programs with 0..8 witnesses of generated types x 6 supplied maps built from the intended one by 0-2 of: drop a name, add an undeclared name, replace a value by the same bits at a layout-equal different type (cast table), replace by a value of an unrelated type, permute values among names, change a value. Oracle: (a) satisfy is Err iff some supplied declared name carries a value whose type differs nominally from the declared type (computed from the model); (b) when accepted with all names supplied, the run verdict equals the reference interpreter on exactly that name -> value map (so every value reached its own name; programs compare witness-derived values with constants); (c) validity predicate of C02 (witness node typing, CMR, decode) on everything accepted; maps with missing names are only required to be accepted and valid. evaluations = satisfy calls. Non-trivial = >= 2 witnesses and a non-identity map transformation; distinct by digest of program + map.",
+        rule: "generated self-checking programs with 0..8 witnesses of generated types x 6 supplied maps built from the intended one by 0-2 of: drop a name, add an undeclared name, replace a value by the same bits at a layout-equal different type (cast table), replace by a value of an unrelated type, keep the value but name a type that differs only where the value shows nothing (payload type of None, absent side of an Either, element type of an empty list / array), permute values among names, change a value. Oracle: (a) satisfy is Err iff some supplied declared name carries a value whose type differs nominally from the declared type (computed from the model); (b) when accepted with all names supplied, the run verdict equals the reference interpreter on exactly that name -> value map (so every value reached its own name; programs compare witness-derived values with constants); (c) validity predicate of C02 (witness node typing, CMR, decode) on everything accepted; maps with missing names are only required to be accepted and valid. evaluations = satisfy calls. Non-trivial = >= 2 witnesses and a non-identity map transformation; distinct by digest of program + map.",
         assumptions: &["missing witnesses are zero-filled by simplicity-lang 0.4.0; the property does not demand an error for them"],
         streams,
         health: &[("maps", "rejected-as-expected", 100), ("maps", "map:permute", 30), ("maps", "map:same-layout-other-type", 30)],
